@@ -7,7 +7,7 @@ Predicate on the implementation: plant 1-5 invalid expressions at random node ki
 """
 from __future__ import annotations
 
-from .. import evalenv, extract, trees as T, valgen as V
+from .. import evaluation as E, evalenv, extract, trees as T, valgen as V
 from ..common import Ctx
 from . import _valcommon as VC
 
@@ -26,7 +26,7 @@ def run(ctx: Ctx) -> None:
         ctx.lean_audit(MODULES)
         if not ctx.quick:
             ctx.lean_check_olean(MODULES)
-    evalenv.configure_cer_based()
+    E.configure(ctx.rng)  # evaluators: content-result based or evaluate_<key> methods, suspending under a random schedule half of the time
     rng = ctx.rng
     runs = []
     for i in range(ctx.pick(100, 1000)):
